@@ -343,6 +343,8 @@ int main(int argc, char** argv) {
       else if (!strcmp(what, "memtype")) HC_TRY(mem(c, alien));
       else if (!strcmp(what, "resizehuge")) HC_TRY(resize(c, (size_t)1 << 59));       /* more than can be had: refused, the bindings stay */
       else if (!strcmp(what, "resizemax")) HC_TRY(resize(c, (size_t)-1));
+      else if (!strcmp(what, "newnulltypes")) { var k0 = so->kind == 2 ? Tree : Table; HC_TRY(new_raw_with(k0, tuple(NULL, NULL))); }            /* no types at all */
+      else if (!strcmp(what, "newinttypes")) { var k0 = so->kind == 2 ? Tree : Table; HC_TRY(new_raw_with(k0, tuple($I(1), $I(2)))); }           /* objects that are not types */
       else if (!strcmp(what, "setrefuse")) {           /* a value of the right type that the value type's Assign refuses; key: token hc_w[3], present or not */
         var k2 = vt_make(vt_k, (int)hc_int(3)); var bad = new_raw(Probe, $I(PROBE_REFUSED));
         HC_TRY(set(c, k2, bad));
